@@ -377,6 +377,10 @@ pub fn encode_raw(ctx: &MCTPSMBusContext, call: &EncCall, dest: u8, buf: &mut [u
             Half::Req => trait_call(rq, 3, *secured, dest, header, data, buf),
             Half::Resp => trait_call(rs, 3, *secured, dest, header, data, buf),
         },
+        TraitTyped { half, mt, data } => match half {
+            Half::Req => rq.generate_spdm_msg_packet_bytes(dest, mt_from_idx(*mt), &None, data, buf),
+            Half::Resp => rs.generate_spdm_msg_packet_bytes(dest, mt_from_idx(*mt), &None, data, buf),
+        },
         RespSetEndpointId { cc, assign, alloc } => {
             rs.set_endpoint_id(cc_from(*cc), dest, assign_status(*assign), alloc_status(*alloc), buf)
         }
